@@ -102,8 +102,19 @@ def _build_patches():
         def __init__(self, path, sleep_func=None, logger=None):
             super().__init__(path, sleep_func=_sim_sleep, logger=logger)
 
+    import io as _io
     import os as _os
 
+    class _IoProxy:
+        """The `io` module as the storage modules see it: `io.open` lands on the simulated disk, everything else is the
+        real module (a refactoring from `path.open(...)` to `io.open(path, ...)` must not slip past the seam)."""
+        open = staticmethod(K.sim_open)
+
+        def __getattr__(self, name):
+            return getattr(_io, name)
+
+    io_proxy = _IoProxy()
+    storage_mods = (molli.storage.ukvfile, molli.storage.backends, molli.storage.collection, molli.chem.library)
     return [
         (_os, "fsync", _mk_fsync(_os.fsync)),
         (_os, "fdatasync", _mk_fsync(_os.fdatasync)),
@@ -111,7 +122,7 @@ def _build_patches():
         (molli.storage.backends, "Path", K.SimPath),
         (molli.storage.collection, "Path", K.SimPath),
         (molli.chem.library, "Path", K.SimPath),
-        (molli.chem.library, "open", K.sim_open),
+    ] + [(m_, "open", K.sim_open) for m_ in storage_mods] + [(m_, "io", io_proxy) for m_ in storage_mods if "io" in vars(m_)] + [
         (molli.storage.backends, "InterProcessReaderWriterLock", SimRWLock),
         (molli.storage.backends, "atexit", SimAtexit),
         (fasteners.process_lock, "_interprocess_reader_writer_mechanism", SimLockMech),
